@@ -15,7 +15,7 @@ def run(tier):
     if not d0.ok:
         raise Broken("design model MC_TileAddr fails: %s\n%s" % (d0.violated or d0.error, d0.trace_text[:2000]))
     drv = vlib.build_harness()
-    p = vlib.run([drv, "tms-addr-trace", "-seed", str(vlib.seed()), "-samples", "6" if tier == "quick" else "60"], timeout=1800)
+    p = vlib.run([drv, "tms-addr-trace", "-seed", str(vlib.seed()), "-samples", "6" if tier == "quick" else "250"], timeout=1800)
     if p.returncode != 0:
         raise Broken("tms-addr-trace failed: " + p.stderr[-2000:])
     lines = [x for x in p.stdout.splitlines() if x.startswith("{")]
